@@ -250,7 +250,7 @@ def multisubstitute(X, motifs, spacing, start=None,
 
 	for i in range(len(spacing)):
 		X = substitute(X, motifs[i], start=start, alphabet=alphabet)
-		start += motif_lengths[i] + spacing[i]
+		start = start + motif_lengths[i] + spacing[i]
 
 	X = substitute(X, motifs[-1], start=start, alphabet=alphabet)
 	return X
